@@ -277,6 +277,24 @@ func c17R2(c *Ctx) {
 			c.Violation(name, p.InstrPos(op.in), "append-position:"+op.file.Name(), fmt.Sprintf("the %s is positioned with Seek(%d, whence %d) before the append; it must be Seek(0, io.SeekEnd): after a reopen the file position is 0 and new messages would overwrite the oldest stored ones while the index still points at them", op.file.Name(), off, wh))
 		}
 	}
+	// each of the two files is positioned at its end before it is written
+	for _, f := range []*types.Var{body, header} {
+		for _, w := range ops {
+			if w.kind != "write" || w.file != f {
+				continue
+			}
+			pos := false
+			for _, sk := range ops {
+				if sk.kind == "seek" && sk.file == f && InstrDominates(sk.in, w.in) {
+					pos = true
+				}
+			}
+			if !pos {
+				okAll = false
+				c.Violation(name, p.InstrPos(w.in), "append-position-missing:"+f.Name(), "the "+f.Name()+" is written without having been positioned at its end first: within one open/close cycle the position happens to be at the end, but after a reopen (restart, Refresh) it is 0 and the write overwrites the oldest entries")
+			}
+		}
+	}
 	for _, op := range ops {
 		if op.kind == "write" && op.file == header {
 			cc := op.in.(ssa.CallInstruction).Common()
@@ -450,6 +468,56 @@ func c17R4(c *Ctx) {
 			}
 		}
 	}
+	// statements executed by a helper that is handed the transaction (a block extracted from this function)
+	type helperUse struct {
+		call  ssa.CallInstruction
+		execs []ssa.CallInstruction
+		ok    bool // the helper returns a nil error only when all its statements returned nil
+	}
+	var helpers []helperUse
+	if begin != nil {
+		for _, cl := range Calls(fn) {
+			cal := cl.Common().StaticCallee()
+			if cal == nil || !p.InModule(cal) || cal.Blocks == nil {
+				continue
+			}
+			txParam := -1
+			for i, a := range cl.Common().Args {
+				if o := p.Origin(a); o.Kind == "call" && o.CallI == begin.(ssa.Instruction) && o.Res == 0 {
+					txParam = i
+				}
+			}
+			if txParam < 0 || txParam >= len(cal.Params) {
+				continue
+			}
+			hu := helperUse{call: cl, ok: true}
+			for _, c2 := range Calls(cal) {
+				n2 := callName(c2.Common())
+				if strings.HasSuffix(n2, "sql.Tx).Exec") && c2.Common().Args[0] == ssa.Value(cal.Params[txParam]) {
+					hu.execs = append(hu.execs, c2)
+				}
+				if strings.HasSuffix(n2, "sql.DB).Exec") {
+					c.Violation(FuncName(cal), p.InstrPos(c2), "exec-outside-tx", "a statement of save-and-increment is executed on the connection pool, not on the transaction")
+				}
+			}
+			if len(hu.execs) == 0 {
+				continue
+			}
+			for _, b := range cal.Blocks {
+				r, isRet := b.Instrs[len(b.Instrs)-1].(*ssa.Return)
+				if !isRet || len(r.Results) == 0 || !isErrorType(r.Results[len(r.Results)-1].Type()) || !p.possibleSuccess(r) {
+					continue
+				}
+				d := p.ReachCond(b)
+				for _, e := range hu.execs {
+					if !d.Implies(nilErrAtomFor(e.(ssa.Instruction))) {
+						hu.ok = false
+					}
+				}
+			}
+			helpers = append(helpers, hu)
+		}
+	}
 	if begin == nil || commit == nil {
 		c.Violation(name, p.Pos(fn.Pos()), "no-transaction", "SQL save-and-increment does not run inside Begin … Commit: a failure of either statement can leave the message without the increment or the increment without the message")
 		return
@@ -472,6 +540,19 @@ func c17R4(c *Ctx) {
 			c.Violation(name, p.InstrPos(e), "exec-other-tx", "statement executed on a transaction other than the one begun here")
 		}
 	}
+	for _, hu := range helpers {
+		for _, e := range hu.execs {
+			txt := strings.ToUpper(strings.TrimSpace(p.stmtTextOfArg(e.Common().Args[1])))
+			switch {
+			case strings.HasPrefix(txt, "INSERT"):
+				kinds = append(kinds, "insert")
+			case strings.HasPrefix(txt, "UPDATE") && strings.Contains(txt, "OUTGOING_SEQNUM"):
+				kinds = append(kinds, "update-sender")
+			default:
+				kinds = append(kinds, "other")
+			}
+		}
+	}
 	c.Check(len(kinds) == 2 && containsStr(kinds, "insert") && containsStr(kinds, "update-sender"), name, p.Pos(fn.Pos()), "tx-statements", "INSERT message and UPDATE outgoing_seqnum both on the transaction", fmt.Sprintf("transaction executes %v; expected the message INSERT and the outbound-counter UPDATE", kinds))
 	// commit only when both execs nil
 	d := p.ReachCond(commit.Block())
@@ -481,7 +562,12 @@ func c17R4(c *Ctx) {
 			okCommit = false
 		}
 	}
-	c.Check(okCommit && len(execs) > 0, name, p.InstrPos(commit), "commit-guard", "Commit only after both statements returned nil", "Commit is reachable although a statement failed (or its error was not checked): a partial save-and-increment would be committed")
+	for _, hu := range helpers {
+		if !hu.ok || !d.Implies(nilErrAtomFor(hu.call.(ssa.Instruction))) {
+			okCommit = false
+		}
+	}
+	c.Check(okCommit && len(execs)+len(helpers) > 0, name, p.InstrPos(commit), "commit-guard", "Commit only after both statements returned nil", "Commit is reachable although a statement failed (or its error was not checked): a partial save-and-increment would be committed")
 	// every exit after Begin passes Commit or Rollback
 	c.Check(deferRollback || allExitsPass(p, fn, begin, commit), name, p.InstrPos(begin), "tx-closed", "every exit after Begin passes Commit or (deferred) Rollback", "an exit after Begin leaves the transaction open (neither Commit nor Rollback)")
 	// cache update after commit nil, with the value written by the UPDATE
